@@ -1,5 +1,112 @@
-From Coq Require Import String List ZArith Bool.
-From LNML Require Import Model.Groups.
-Theorem C14_stub : forall l, add_new l [] = l.
-Proof. reflexivity. Qed.
-Print Assumptions C14_stub.
+(* C14 - Segment-group membership is the transitive closure; optimising never changes it.
+
+   resolve      = Cell.get_all_segments_in_group(id)     (fuel = recursion depth available)
+   optimise_all = Cell.optimise_segment_groups()         (the method as repaired by
+                                                           fixes/C14-optimise-multiple-includes.patch;
+                                                           optimise_all_v0 = as shipped at the pinned commit)
+   reach        = least relation closed under "is a member" and "is in an included group"
+   sortS/sortZ  = natsort.natsorted on group ids / segment ids: ANY functions that permute their
+                  argument and leave their own output unchanged.
+   Quantifiers: every segment list, every group list (any size, order, overlaps, duplicates, number of
+   includes per group) whose include graph is acyclic (a rank function exists) and closed (every
+   include names a defined group, or the undefined "all" which the code resolves to all segments). *)
+From Coq Require Import String List ZArith Bool Permutation.
+From LNML Require Import Model.Groups Proofs.GroupsP Proofs.GroupsSortP Proofs.GroupsC14P.
+Import ListNotations.
+Open Scope string_scope.
+
+(* (1) the segments of a group are exactly those reachable through members and, transitively,
+       included groups, each reported once *)
+Theorem C14_closure : forall segs G fuel a,
+  acyclic G -> closed G -> NoDup segs -> length G < fuel -> (In a (map gid G) \/ a = "all") ->
+  exists l, resolve segs fuel G a = Ret l /\ NoDup l /\ forall s, In s l <-> reach segs G a s.
+Proof. exact closure. Qed.
+Print Assumptions C14_closure.
+
+(* whatever is returned IS the closure - no hypothesis on the graph at all *)
+Theorem C14_closure_whenever_it_returns : forall segs G fuel a l,
+  resolve segs fuel G a = Ret l -> (forall s, In s l <-> reach segs G a s) /\ (NoDup segs -> NoDup l).
+Proof. exact resolve_spec. Qed.
+Print Assumptions C14_closure_whenever_it_returns.
+
+(* one step at a time: the group's own members, then what each include resolves to *)
+Theorem C14_closure_unfold : forall segs G fuel a g,
+  acyclic G -> closed G -> length G < fuel -> lookup G a = Some g ->
+  exists l, resolve segs fuel G a = Ret l /\
+    forall s, In s l <-> In s (members g) \/
+                         exists i li, In i (includes g) /\ resolve segs fuel G i = Ret li /\ In s li.
+Proof. exact closure_unfold. Qed.
+Print Assumptions C14_closure_unfold.
+
+(* (2) optimising returns, keeps the list of groups, and never changes the resolved set of any group *)
+Theorem C14_preserve :
+  forall (sortS : list string -> list string) (sortZ : list Z -> list Z),
+    (forall l, Permutation (sortS l) l) -> (forall l, Permutation (sortZ l) l) ->
+  forall segs G fuel,
+    acyclic G -> closed G -> NoDup segs -> length G < fuel -> ~ In "" (map gid G) ->
+    exists G', optimise_all sortS sortZ segs fuel G = Ret G' /\
+      map gid G' = map gid G /\ map nlex G' = map nlex G /\
+      forall a, (In a (map gid G) \/ a = "all") ->
+        exists l l', resolve segs fuel G a = Ret l /\ resolve segs fuel G' a = Ret l' /\
+                     NoDup l' /\ forall s, In s l <-> In s l'.
+Proof. exact preserve. Qed.
+Print Assumptions C14_preserve.
+
+(* (3) it leaves no duplicate member, no duplicate include, and no member that an included group supplies *)
+Theorem C14_clean :
+  forall (sortS : list string -> list string) (sortZ : list Z -> list Z),
+    (forall l, Permutation (sortS l) l) -> (forall l, Permutation (sortZ l) l) ->
+  forall segs G fuel G',
+    acyclic G -> NoDup (map gid G) -> optimise_all sortS sortZ segs fuel G = Ret G' ->
+    forall g, In g G' ->
+      NoDup (members g) /\ NoDup (includes g) /\
+      forall i l s, In i (includes g) -> resolve segs fuel G' i = Ret l -> In s (members g) -> ~ In s l.
+Proof. exact clean_after. Qed.
+Print Assumptions C14_clean.
+
+(* (4) applying it twice gives the same result as once *)
+Theorem C14_idem :
+  forall (sortS : list string -> list string) (sortZ : list Z -> list Z),
+    (forall l, Permutation (sortS l) l) -> (forall l, Permutation (sortZ l) l) ->
+    (forall l, sortS (sortS l) = sortS l) -> (forall l, sortZ (sortZ l) = sortZ l) ->
+  forall segs G fuel G',
+    acyclic G -> closed G -> NoDup (map gid G) -> length G < fuel ->
+    optimise_all sortS sortZ segs fuel G = Ret G' -> optimise_all sortS sortZ segs fuel G' = Ret G'.
+Proof. exact idem. Qed.
+Print Assumptions C14_idem.
+
+(* the sort hypotheses are met by the sorts the model is run with against the real natsort *)
+Theorem C14_sort_hypotheses_met :
+  (forall l, Permutation (natsortS l) l) /\ (forall l, Permutation (isortZ l) l) /\
+  (forall l, natsortS (natsortS l) = natsortS l) /\ (forall l, isortZ (isortZ l) = isortZ l).
+Proof. exact (conj natsortS_perm (conj isortZ_perm (conj natsortS_idem isortZ_idem))). Qed.
+Print Assumptions C14_sort_hypotheses_met.
+
+(* the graph hypotheses are met by non-trivial cells (chain of includes, overlaps, duplicates,
+   include of the undefined "all") *)
+Theorem C14_hypotheses_satisfiable :
+  acyclic ex_G /\ closed ex_G /\ NoDup (map gid ex_G) /\ NoDup ex_segs /\
+  length ex_G < default_fuel ex_G /\ ~ In "" (map gid ex_G).
+Proof. exact ex_hyps. Qed.
+Print Assumptions C14_hypotheses_satisfiable.
+
+(* the method AS SHIPPED violates (3): with two includes a member is appended once per include that
+   does not supply it (members [0,1,2], includes a={0}, b={1}  ->  [0,1,2,2]) *)
+Theorem C14_clean_v0_refuted : exists segs G G',
+  acyclic G /\ closed G /\ NoDup (map gid G) /\
+  optimise_all_v0_c segs (default_fuel G) G = Ret G' /\
+  clean_b segs (default_fuel G) G' = false /\
+  exists g, In g G' /\ members g = [0; 1; 2; 2]%Z.
+Proof. exact clean_v0_refuted. Qed.
+Print Assumptions C14_clean_v0_refuted.
+
+(* ... and coincides with the repaired method when no group has two distinct includes, so that
+   (2)-(4) hold for the shipped code on such cells *)
+Theorem C14_clean_v0_partial :
+  forall (sortS : list string -> list string) (sortZ : list Z -> list Z),
+    (forall l, Permutation (sortS l) l) ->
+  forall segs fuel G,
+    (forall g, In g G -> length (dedupS (includes g)) <= 1) ->
+    optimise_all_v0 sortS sortZ segs fuel G = optimise_all sortS sortZ segs fuel G.
+Proof. exact v0_agrees_when_few_includes. Qed.
+Print Assumptions C14_clean_v0_partial.
